@@ -782,10 +782,9 @@ func genC08(r *simrt.Rand, tier string, idx uint64) Workload {
 		case 14:
 			d := durs[r.Intn(len(durs))]
 			o := COp{Op: "MapToCache", K: k, V: val(), D: d, K2: -1}
-			// MapToCache walks a Go map, whose iteration order has no seam. With two entries the order only
-			// matters if simulated time can pass between the two stores, i.e. under time faults: there the
-			// map has a single entry, so that the run stays a pure function of the seed.
-			if !faulty && r.Bool(0.6) {
+			// MapToCache walks a Go map; in the instrumented copy the order of that walk is a seeded choice
+			// (simiter), so two-entry maps are fine under time faults too (round 1 had to avoid them there)
+			if r.Bool(0.6) {
 				o.K2 = (k + 1 + r.Intn(2)) % 3
 				o.V2 = val()
 			}
